@@ -198,7 +198,7 @@ def _message_parts(t) -> List[Any]:
     if t[0] == 'fstr':
         out = []
         for v in t[1:]:
-            out.extend(_message_parts(v))
+            out.extend(_message_parts(v[1] if isinstance(v, tuple) and v[:1] == ('fmt',) else v))
         return out
     if t[0] == 'binop' and t[1] in ('+', '%'):
         return _message_parts(t[2]) + _message_parts(t[3])
